@@ -58,7 +58,10 @@ contract(L + 'predict_cluster_labels', props=['C09', 'C01', 'C05', 'C06', 'C13',
                                        "forall(0, _k, lambda k: eqcontent(_comp1[k].train_inverse, model.clusters[k].train_inverse) and "
                                        "eqcontent(_comp1[k].stacked_data_mean, model.clusters[k].stacked_data_mean) and "
                                        "eqcontent(_comp1[k].empirical_covariance, model.clusters[k].empirical_covariance) and "
-                                       "eqcontent(_comp1[k].computed_covariance, model.clusters[k].computed_covariance))"])}},
+                                       "eqcontent(_comp1[k].computed_covariance, model.clusters[k].computed_covariance))",
+                                       "forall(0, _k, lambda k: fresh(_comp1[k].inverse_covariance) and "
+                                       "eqcontent(_comp1[k].inverse_covariance, model.clusters[k].inverse_covariance) and "
+                                       "_comp1[k].log_determinant == model.clusters[k].log_determinant)"])}},
          ensures=["fresh(result)", "fresh(result.clusters)", "len(result.clusters) == " + _KC, "same(result.arguments, model.arguments)",
                   ("cost-table-is-minus-the-log-likelihood-under-the-models-means-and-MRFs", _TBL),
                   ("one-label-per-point-in-range", "len(result._point_labels) == test_data.shape[0] and "
@@ -82,7 +85,15 @@ contract(L + 'predict_cluster_labels', props=['C09', 'C01', 'C05', 'C06', 'C13',
                   ("wf:K-clusters", "len(result.clusters) == result.arguments.num_clusters"),
                   ("wf:distinct", "distinct_clusters(result)"),
                   ("wf:membership", "membership_ok(result)"),
+                  ("result-scores-with-the-same-precision-and-logdet-as-the-table", "forall(0, " + _KC + ", lambda k: "
+                   "eqcontent(result.clusters[k].inverse_covariance, model.clusters[k].train_inverse) and "
+                   "result.clusters[k].log_determinant == logdet(model.clusters[k].train_inverse) and "
+                   "not isnone(result.clusters[k].inverse_covariance) and not isnone(result.clusters[k].stacked_data_mean))"),
                   ("result-is-well-formed", "wf(result)"),
+                  ("everything-reachable-from-the-result-exists-now", "allocated(result) and allocated(result.clusters) and allocated(result._point_labels) and "
+                   "forall(0, " + _KC + ", lambda k: allocated(result.clusters[k]) and allocated(result.clusters[k]._member_points) and "
+                   "allocated(result.clusters[k].train_inverse) and allocated(result.clusters[k].computed_covariance) and "
+                   "allocated(result.clusters[k].stacked_data_mean) and allocated(result.clusters[k].empirical_covariance))"),
                   ("state-given-keeps-its-labelling-membership-and-statistics", "unchanged(model, model.clusters, model._point_labels, test_data) and "
                    "forall(0, " + _KC + ", lambda k: unchanged(model.clusters[k]._member_points) and "
                    "same(model.clusters[k].train_inverse, old(model.clusters[k].train_inverse)) and "
@@ -125,6 +136,7 @@ contract(ML + '_compute_log_likelihood_by_cluster', props=['C06', 'C05', 'C19'],
                                        "and not same(_comp1[k], _comp1))",
                                        "forall(lambda k1, k2: implies(0 <= k1 and k1 < k2 and k2 < i, not same(_comp1[k1], _comp1[k2])))"])}},
          ensures=["fresh(result)", "len(result) == len(model.clusters)",
+                  ("inner-lists-are-fresh-and-exist", "forall(0, len(result), lambda k: fresh(result[k]) and allocated(result[k]) and not same(result[k], result))"),
                   # exactly one entry per labelled point: cluster k's list has one entry for every point labelled k, in point order
                   ("one-entry-per-point-labelled-k", "forall(0, len(result), lambda k: len(result[k]) == cnt(" + _LB + ", k, len(" + _LB + ")))"),
                   ("entry-is-that-points-log-likelihood-under-its-own-cluster", "forall(lambda k, p: implies(0 <= k and k < len(result) and "
@@ -143,7 +155,7 @@ contract(ML + '_compute_log_likelihood_by_cluster', props=['C06', 'C05', 'C19'],
 
 
 _CUR = "current_model_state"
-_UA_OK = ["user_args.iteration_limit > 0", "user_args.num_clusters >= 1 and user_args.num_clusters <= 65536",
+_UA_OK = ["user_args.iteration_limit > 0", "user_args.num_clusters >= 2 and user_args.num_clusters <= 65536",
           "user_args.window_size >= 1", "user_args.min_cluster_size >= 1", "user_args.sparsity_weight >= 0",
           "user_args.label_switching_cost >= 0", "stacked_ok(stacked_training_data, user_args.window_size)",
           "stacked_training_data.shape[0] > user_args.num_clusters", "stacked_training_data.shape[1] < 67108864",
@@ -177,9 +189,12 @@ contract(ML + 'fit_stacked_data', props=['C09', 'C04', 'C06', 'C13', 'C14', 'C20
                    "forall(0, user_args.num_clusters, lambda k: same(result.markov_random_fields[k], FINAL.clusters[k].train_inverse))"),
                   ("echoes-K-and-W", "result.num_clusters == user_args.num_clusters and result.window_size == user_args.window_size"),
                   # accounting (C06): the per-point list is the concatenation of the per-cluster lists, aggregates are taken over exactly it
-                  ("per-point-list-is-the-concatenation", "chain_offset(result.all_log_likelihood, 0) == 0 and "
-                   "forall(0, len(CLL), lambda k: chain_offset(result.all_log_likelihood, k + 1) == chain_offset(result.all_log_likelihood, k) + len(CLL[k])) and "
-                   "len(result.all_log_likelihood) == chain_offset(result.all_log_likelihood, len(CLL))"),
+                  ("per-point-list-is-the-concatenation:start", "chain_offset(result.all_log_likelihood, 0) == 0"),
+                  ("per-point-list-is-the-concatenation:length", "len(result.all_log_likelihood) == chain_offset(result.all_log_likelihood, len(CLL))"),
+                  ("per-point-list-is-the-concatenation:offsets", "forall(0, len(CLL), lambda k: chain_offset(result.all_log_likelihood, k + 1) == "
+                   "chain_offset(result.all_log_likelihood, k) + len(CLL[k]))"),
+                  ("per-point-list-is-the-concatenation:entries", "forall(lambda k, j: implies(0 <= k and k < len(CLL) and 0 <= j and j < len(CLL[k]), "
+                   "result.all_log_likelihood[chain_offset(result.all_log_likelihood, k) + j] == CLL[k][j]))"),
                   ("per-cluster-lists-have-one-entry-per-point-labelled-k", "len(CLL) == user_args.num_clusters and "
                    "forall(0, len(CLL), lambda k: len(CLL[k]) == cnt(FINAL._point_labels, k, len(FINAL._point_labels)))"),
                   ("overall-aggregates-over-exactly-that-list", "result.overall_log_likelihood == sum_of(result.all_log_likelihood) and "
@@ -193,11 +208,21 @@ contract(ML + 'fit_stacked_data', props=['C09', 'C04', 'C06', 'C13', 'C14', 'C20
                         ghost_break={'rounds': 'rounds + 1', 'stopped': 'True'},
                         inv=["rounds == current_iteration", "not stopped", "not _any_task_failed",
                              "_pool_created and not _pool_closed and not _pool_joined",
-                             "wf(" + _CUR + ")", "fresh(" + _CUR + ")", "same(" + _CUR + ".arguments, user_args)",
+                             "wf(" + _CUR + ")", "closed_model(" + _CUR + ")", "fresh(" + _CUR + ")", "same(" + _CUR + ".arguments, user_args)",
                              "len(" + _CUR + "._point_labels) == stacked_training_data.shape[0]",
                              _CUR + "._phase == ite(current_iteration == 0, 0, 4)",
                              "implies(current_iteration > 0, forall(0, len(" + _CUR + ".clusters), lambda k: "
                              "not isnone(" + _CUR + ".clusters[k].computed_covariance) and not isnone(" + _CUR + ".clusters[k].train_inverse)))",
+                             "implies(current_iteration > 0, forall(0, len(" + _CUR + ".clusters), lambda k: "
+                             "not isnone(" + _CUR + ".clusters[k].stacked_data_mean) and not isnone(" + _CUR + ".clusters[k].inverse_covariance) and "
+                             "not isnone(" + _CUR + ".clusters[k].empirical_covariance) and "
+                             + _CUR + ".clusters[k].stacked_data_mean.shape[0] == stacked_training_data.shape[1] and "
+                             + _CUR + ".clusters[k].train_inverse.shape[0] == stacked_training_data.shape[1] and "
+                             + _CUR + ".clusters[k].train_inverse.shape[1] == stacked_training_data.shape[1] and "
+                             + _CUR + ".clusters[k].inverse_covariance.shape[0] == stacked_training_data.shape[1] and "
+                             + _CUR + ".clusters[k].inverse_covariance.shape[1] == stacked_training_data.shape[1] and "
+                             + _CUR + ".clusters[k].empirical_covariance.shape[0] == stacked_training_data.shape[1] and "
+                             + _CUR + ".clusters[k].empirical_covariance.shape[1] == stacked_training_data.shape[1]))",
                              "implies(current_iteration > 0, not isnone(previous_iteration_point_labels) and "
                              "eqcontent(previous_iteration_point_labels, " + _CUR + "._point_labels))",
                              "implies(current_iteration == 0, isnone(previous_iteration_point_labels))"],
